@@ -247,6 +247,78 @@ def step_root(run, n):
         report(run, qq, name, 'panic reachable in alpha_beta_start when cut short: %s %s' % (ob.where.split('::')[-1], ob.msg[:80]))
 
 
+def lemma_timer(run):
+    """TIMER: whenever a clock or an increment is given, Search::search sets up a finite time budget that is no larger than
+    the largest of the given values -- so a clocked search cannot run unbounded (the logical part of "the answer arrives
+    within the time the limits allow"; the wall clock itself is outside)"""
+    name = 'TIMER'
+    env = SS.StepEnv(run, 2, 'root', ply_concrete=0, abortable=False, limits=sym_limits())
+    ex = env.ex
+    turn = z3.BitVec('root_turn', 64)
+    ex.assume(z3.ULT(turn, 2))
+    env.G.nodes[0]['turn'] = turn
+    seen = []
+
+    def ab_start(ctx, sp, ev, depth, start):
+        S = ctx.deref(sp)
+        seen.append((ctx.st.guard, S[3]))
+        from mirsym.executor import DIVERGE
+        return DIVERGE
+    ex.model(r'^search::Search::alpha_beta_start::<.*>$', ab_start)
+    st = State()
+    sp = ex.alloc(st, env.search_value(st))
+    L = lambda n: z3.Bool('lim_%s_some' % n)
+    V = lambda n: z3.BitVec('lim_%s' % n, 128)
+    for n in ('wtime', 'btime', 'winc', 'binc'):
+        ex.assume(z3.ULT(V(n), 1 << 64))          # clock values far from wrapping u128 (stated bound)
+    ex.call(env.item('search'), [sp, ex.alloc(st, ()), some(CI(1, 8))],
+            ['&mut search::Search', '&evaluate::simple_evaluator::SimpleEvaluator', 'std::option::Option<u8>'], '()', st, 'harness')
+    run.absorb(ex)
+    if not seen:
+        run.inconclusive.append('%s: search() never reaches the first iteration' % name)
+        return
+    any_clock = z3.Or(L('wtime'), L('btime'), L('winc'), L('binc'))
+    mx = z3.BitVecVal(0, 128)
+    for n in ('wtime', 'btime', 'winc', 'binc'):
+        v = z3.If(L(n), V(n), z3.BitVecVal(0, 128))
+        mx = z3.If(z3.UGT(v, mx), v, mx)
+    ti = run.prog.field_index('search::limits::SearchLimits', 'time_management_timer')
+    bad = []
+    for g, lim in seen:
+        t = lim[ti]
+        tsome = opt_is_some(t)
+        tval = t.pay[1][0] if 1 in t.pay and t.pay[1] else None
+        bad.append(z3.And(zb(g), any_clock, z3.Or(z3.Not(zb(tsome)), z3.UGT(bv(tval), mx) if tval is not None else z3.BoolVal(True))))
+    if not run.witness(name, ex.pre + [zb(seen[0][0]), any_clock]):
+        return
+    q = run.decide('%s/clocked-search-has-a-finite-budget' % name, ex.pre + [z3.Or(*bad)], kind='smt',
+                   note='any of wtime/btime/winc/binc given => the time budget set up by search() is Some(t) with t <= the largest given value')
+    if q.verdict == 'sat':
+        m = q.model
+        given = {n: (m.eval(V(n), model_completion=True).as_long() if z3.is_true(m.eval(L(n), model_completion=True)) else None) for n in ('wtime', 'btime', 'winc', 'binc')}
+        black = m.eval(turn, model_completion=True).as_long() == 1
+        go = 'go ' + ' '.join('%s %d' % (n, min(v, 100000)) for n, v in given.items() if v is not None)
+        pos = 'position startpos moves e2e4' if black else 'position startpos'
+        out, err = real_engine(run, [pos, go], wait=4.0)
+        nb = sum(1 for l in out.split('\n') if l.startswith('bestmove'))
+        small = all(v is None or v <= 2000 for v in given.values())
+        if nb == 0 and small:
+            run.violation('after `%s; %s` the engine has not answered after 4 s although every given clock value is at most 2 s: no finite time budget is set up' % (pos, go),
+                          {'lines': [pos, go], 'bestmove_lines': nb})
+        else:
+            # retry with small values of the same shape
+            go2 = 'go ' + ' '.join('%s %d' % (n, 40) for n, v in given.items() if v is not None)
+            out, err = real_engine(run, [pos, go2], wait=4.0)
+            nb = sum(1 for l in out.split('\n') if l.startswith('bestmove'))
+            if nb == 0:
+                run.violation('after `%s; %s` the engine has not answered after 4 s: no finite time budget is set up for this mix of limits' % (pos, go2),
+                              {'lines': [pos, go2], 'bestmove_lines': nb})
+            else:
+                run.inconclusive.append('%s: abstract counterexample (%s, black to move: %s) not reproduced on the real engine' % (name, given, black))
+    for ob, qq in run.check_obligations(ex, name):
+        real_check(run, 'search() can panic while setting up the time budget (%s)' % ob.msg[:60], 'S6')
+
+
 def step_iter(run, cfg):
     """ITER: search/iter_deep with the iteration contract"""
     name = 'ITER/%s' % cfg
@@ -419,6 +491,8 @@ def worker(run, job):
         step_iter(run, arg)
     elif kind == 'LIM':
         lemma_limits(run)
+    elif kind == 'TIMER':
+        lemma_timer(run)
     else:
         wiring(run)
 
@@ -443,7 +517,7 @@ def check(run, replay=None):
         return
     run.extra['explanation'] = __doc__
     N = 2 if run.tier == 'quick' else 3
-    jobs = [('WIRE', 0), ('LIM', 0)] + [('ROOT', n) for n in range(1, N + 1)] + [('ITER', 'max-depth-from-go'), ('ITER', 'node-or-time-limits')]
+    jobs = [('WIRE', 0), ('LIM', 0), ('TIMER', 0)] + [('ROOT', n) for n in range(1, N + 1)] + [('ITER', 'max-depth-from-go'), ('ITER', 'node-or-time-limits')]
     run.bounds.append('root nodes with 1..%d pseudo-legal moves (at least one legal); up to 3 iterations; every limit combination and every cut point symbolic' % N)
     run.outside += ['wall-clock promptness', 'thread-level behaviour (panic isolation, acceptance of the next command)', 'more moves at the root / more iterations']
     run.stubs |= {'one-level abstract game at the root', 'nested searches: window contract or cut short', 'iteration contract for alpha_beta_start inside iter_deep',
